@@ -4,6 +4,8 @@ package main
 // under contract.  See DESIGN.md section 2.
 
 import (
+	"os"
+	"runtime/debug"
 	"fmt"
 	"go/ast"
 	"go/constant"
@@ -148,6 +150,7 @@ type exec struct {
 	globalFacts []*Term
 	mulLog      []mulRec
 	lemmaDepth  int
+	allowed     *Term
 }
 
 type mulRec struct{ x, c *Term }
@@ -156,6 +159,9 @@ func (ex *exec) fail(pos token.Pos, format string, args ...interface{}) {
 	p := ""
 	if pos.IsValid() {
 		p = ex.eng.fset.Position(pos).String() + ": "
+	}
+	if os.Getenv("GOVC_DEBUG") != "" {
+		debug.PrintStack()
 	}
 	panic(unsupported{p + fmt.Sprintf(format, args...)})
 }
